@@ -195,12 +195,19 @@ type ServiceRouterWatcher struct {
 	sr     *ServiceRouter
 	target string
 	closed atomic.Bool
+
+	// mu synchronizes UpdateDesc with Close, so that an update which has already passed the closed check
+	// cannot re-add the target's routes after Close has removed them.
+	mu sync.Mutex
 }
 
 // UpdateDesc updates the description of the target this watcher is watching.
 // It follows the same semantics as [PatternRouterWatcher.UpdateDesc],
 // the documentation for which goes into more detail.
 func (srw *ServiceRouterWatcher) UpdateDesc(desc *bridgedesc.Target) {
+	srw.mu.Lock()
+	defer srw.mu.Unlock()
+
 	if srw.closed.Load() {
 		return
 	}
@@ -229,6 +236,10 @@ func (srw *ServiceRouterWatcher) Close() {
 	}
 
 	verifYield("service:close:after-flip")
+
+	// Wait for an in-flight UpdateDesc, which might have already passed the closed check, to finish.
+	srw.mu.Lock()
+	defer srw.mu.Unlock()
 
 	srw.sr.removeTarget(srw.target)
 	srw.sr.watcherSet.Remove(srw.target)
